@@ -303,6 +303,16 @@ pub fn run(out: &Path, seed: u64, thorough: bool, prop: &str) -> Result<(), Box<
     let afiles = cf::write_shards(out, &format!("{}_a", prop), aimports, "acase",
         "bad_acases W MAX_FUTURE_TRANSACTION_NONCES MAX_FUTURE_TRANSACTION_BLOCKS INDEXER_ADDRESS", &aterms, 16)?;
     let mut files = files; files.extend(afiles);
+    // C08: the oracle hypotheses of the global theorems (revm's nonce rule per transact; nonces and pool
+    // re-read after clear / reorg agree with the truncated execution log, pool entries distinct, not
+    // parked above the next block, not already expired) evaluated by Coq along every recorded history
+    // (Model/TieNonce.v); an id printed = a history on which a hypothesis fails
+    if prop == "c08" {
+        let nimports = "From Brc.Model Require Import Base Table Engine EngineRun Tie05 TieNonce.\nFrom BrcGen Require Import Consts.";
+        let nfiles = cf::write_shards(out, &format!("{}_n", prop), nimports, "ecase",
+            "bad_nonce_cases W MAX_FUTURE_TRANSACTION_NONCES MAX_FUTURE_TRANSACTION_BLOCKS INDEXER_ADDRESS", &terms, 16)?;
+        files.extend(nfiles);
+    }
     std::fs::write(out.join(format!("{}_cases.jsonl", prop)), jsonl)?;
     let meta = json!({
         "files": files,
@@ -310,6 +320,7 @@ pub fn run(out: &Path, seed: u64, thorough: bool, prop: &str) -> Result<(), Box<
         "evaluations": terms.len() as u64 + search_eval,
         "distinct_nontrivial": terms.len(),
         "rule": "histories from the structured generator run on the real engine behind the real RPC table (C05: with out-of-protocol calls injected at arbitrary positions incl. mid-block: wrong tx_idx, timestamp / hash differing from the open block, finalise with a wrong count, existing hash, commit / reorg / mine with an open block, both or neither encodings, undecodable raw transactions; C08: pool-edge scripts: park k+1, k+2 ..., deliver k at 9 / 10 / 11 blocks, replacements, stale, far-future, wrong chain). Each indexer call becomes a model call with the oracles' answers; after each call the answer class (rejected / ok with k receipts), next height, open-block count and pool are compared with Model/Engine.v. All histories are distinct PRNG draws. In addition the implementation-level search simcheck c05 (history with rejected calls vs without: same statuses and observations; every protocol violation rejected; no store mutation during a rejected call).",
+        "nonce_hypothesis_cases": if prop == "c08" { terms.len() } else { 0 },
         "calls": n_calls, "call_distribution": dist, "search_evaluations": search_eval,
         "samples": samples, "impl_failures": failures,
     });
